@@ -326,6 +326,11 @@ def resolve_case(fa, cid, wraw, rraw, datum, equal):
         c["sl"] = {"ok": True, "v": proj.pv(v), "pos": fi.tell()}
     except Exception as e:  # noqa: BLE001
         c["sl"] = {"ok": False, "exc": proj.pexc(e)["exc"], "msg": proj.cps(str(e)[:150])}
+    for key, kw in (("named", {"return_named_type": True}), ("recname", {"return_record_name": True})):
+        try:
+            c[key] = {"ok": True, "v": proj.pv(fa.schemaless_reader(io.BytesIO(data), wraw, rraw, **kw))}
+        except Exception as e:  # noqa: BLE001
+            c[key] = {"ok": False, "exc": proj.pexc(e)["exc"], "msg": proj.cps(str(e)[:150])}
     try:
         ff = io.BytesIO()
         fa.writer(ff, wraw, [datum])
